@@ -55,6 +55,7 @@ DIRS = ((5, ''), (2, 'lib/'), (2, 'sub/dir/'), (1, 'a-b.c/'))
 WORDS = (b'x', b'go', b'hi there', b'tab 1', b'p8')
 NEAR_SEPARATORS = (b'x=1 -->8', b'--->8', b'-- >8', b'--8', b'-- -->8')
 SEPARATOR = b'-->8'
+PLACES = ('plain', 'plain', 'carts_root', 'carts_sub')
 
 
 class SelfCheckError(Exception):
@@ -408,17 +409,49 @@ def check_spec(spec, case):
     segs, incs = reference(spec)
     missing = [path for (_i, path, _sel, t) in incs if t is None]
     case = dict(case, files=describe(spec))
-    with tempfile.TemporaryDirectory(prefix='c20_') as root:
+    place = spec.get('place', 'plain')
+    with tempfile.TemporaryDirectory(prefix='c20_') as top:
+        # Where the cart lives: anywhere, or (with HOME pointing into the scratch directory) directly in / in a
+        # game folder of the user's PICO-8 carts directory, whose include root is the carts directory.  Include
+        # names stay relative to the cart's own directory (README), so the expected splice is the same; decoy files
+        # of the same names sit in the carts directory itself.
+        home = os.path.join(top, 'home')
+        carts = os.path.join(home, '.lexaloffle', 'pico-8', 'carts')
+        root = {'plain': os.path.join(top, 'work'), 'carts_root': carts,
+                'carts_sub': os.path.join(carts, 'mygame')}[place]
+        os.makedirs(root)
+        os.makedirs(carts, exist_ok=True)
         main = materialize(spec, root)
+        if place == 'carts_sub':
+            for t in spec['targets']:
+                p = os.path.join(carts, t['path'])
+                if t['path'].split('/')[0] == 'mygame' or os.path.exists(p):
+                    continue
+                os.makedirs(os.path.dirname(p), exist_ok=True)
+                decoy = dict(t)
+                if t['kind'] == 'lua':
+                    decoy['data'] = b'decoy_in_carts_root=1\n'
+                else:
+                    decoy['code'] = b'decoy_in_carts_root=1\n'
+                    decoy.pop('compressed', None)
+                with open(p, 'wb') as fh:
+                    fh.write(target_file_bytes(decoy))
         for (_i, path, _sel, t) in incs:
             exists = os.path.isfile(os.path.join(root, path))
             if exists != (t is not None):
                 raise SelfCheckError('include %r: file existence %r does not match the generated targets' % (path, exists))
+        old_home = os.environ.get('HOME')
+        os.environ['HOME'] = home
         try:
             g = pfile.from_file(main)
             err = None
         except Exception as e:
             g, err = None, e
+        finally:
+            if old_home is None:
+                del os.environ['HOME']
+            else:
+                os.environ['HOME'] = old_home
         got = None
         if err is None:
             try:
@@ -525,9 +558,11 @@ def labels_for(spec):
 def one(ctx, seed, kind):
     avoid = avoid_from_env(ctx)
     spec = gen_spec(seed, avoid, missing=(kind == 'missing'))
+    spec['place'] = PLACES[seed[-1] % len(PLACES)]
     case = {'kind': kind, 'seed': bytes(seed), 'avoid': sorted(avoid)}
     check_spec(spec, case)
     labs, nontrivial = labels_for(spec)
+    labs = labs + ['place_' + spec['place']]
     if kind == 'missing':
         labs = ['missing_target', 'missing_variant_%d' % spec['missing_variant']] + \
                [lab for lab in labs if lab.startswith('includes_')]
@@ -559,6 +594,7 @@ def replay(case):
     'expect': 'splice'|'error'}}."""
     if 'seed' in case:
         spec = gen_spec(case['seed'], set(case.get('avoid', ())), missing=(case.get('kind') == 'missing'))
+        spec['place'] = PLACES[case['seed'][-1] % len(PLACES)]
     else:
         spec = dict(case['spec'])
         spec.setdefault('expect', 'splice')
@@ -574,7 +610,8 @@ REQUIRED = ('includes_0', 'includes_1', 'includes_2', 'includes_3', 'includes_4'
             'kind_p8png', 'p8_and_png_twins_both_included', 'p8png_compressed_no_final_newline', 'tab_empty', 'tab_selector', 'tab_beyond_last', 'tab_last', 'adjacent_includes', 'include_first_line',
             'include_last_line', 'include_middle', 'target_no_final_newline',
             'line_follows_target_without_final_newline', 'nested_include_verbatim', 'subdir', 'same_target_twice',
-            'include_line_padded', 'name_with_dash_dot_digit', 'crlf_target', 'missing_target')
+            'include_line_padded', 'name_with_dash_dot_digit', 'crlf_target', 'missing_target', 'place_plain',
+            'place_carts_root', 'place_carts_sub')
 
 
 def vacuity(total, tier):
